@@ -23,16 +23,39 @@ def call(modname, desc, tier, timeout=600, env=None):
     return pickle.loads(p.stdout)
 
 
+def optimized(modname, desc, tier, timeout=600):
+    """Run mod.run_shard(desc, tier) in an interpreter started with PYTHONOPTIMIZE=1 (assert statements compiled away). What it
+    finds is reported under 'python-O:<signature>' with witness["optimize"] = True, so that a replay uses the same setting."""
+    return call(modname, ("__optimized__", tuple(desc)), tier, timeout=timeout, env={"PYTHONOPTIMIZE": "1"})
+
+
+def replay_optimized(modname, w):
+    """Replay a witness found under python -O in such an interpreter. Returns (reproduced, details) like mod.replay."""
+    rr = call(modname, ("__replay__", {k: v for k, v in w.items() if k != "optimize"}), "quick", env={"PYTHONOPTIMIZE": "1"})
+    return bool(rr.viol), {"violations": sorted(rr.viol), "texts": [v[2][:300] for v in rr.viol.values()], "notes": rr.notes[:1]}
+
+
 def main():
     import ast
     import importlib
 
     from . import runner
+    from .result import R
 
     runner.setup_repo()
     modname, desc, tier = sys.argv[1], ast.literal_eval(sys.argv[2]), sys.argv[3]
     mod = importlib.import_module(modname)
-    r = mod.run_shard_fresh(desc, tier)
+    if desc[0] == "__optimized__":
+        r = mod.run_shard(tuple(desc[1]), tier)
+        if sys.flags.optimize:
+            r.viol = {"python-O:" + k: (v[0], dict(v[1], optimize=True), "with assert statements compiled away (python -O): " + v[2]) for k, v in r.viol.items()}
+    elif desc[0] == "__replay__":
+        r = R()
+        hit, detail = mod.replay(desc[1])
+        if hit:
+            r.violation("replayed", desc[1], str(detail)[:300])
+    else:
+        r = mod.run_shard_fresh(desc, tier)
     out = sys.stdout.buffer
     out.write(pickle.dumps(r))
     out.flush()
